@@ -529,18 +529,26 @@ class GeckoAsyncSpaMan(ABC, AsyncTasks):
         try:
             while True:
 
-                if (
-                    self.spa_state == GeckoSpaState.IDLE
-                    and self._spa_descriptors is None
-                ):
-                    await self.async_locate_spas(self._spa_address)
+                try:
+                    if (
+                        self.spa_state == GeckoSpaState.IDLE
+                        and self._spa_descriptors is None
+                    ):
+                        await self.async_locate_spas(self._spa_address)
 
-                if (
-                    self.spa_state == GeckoSpaState.LOCATED_SPAS
-                    and self._spa_identifier is not None
-                    and self._facade is None
-                ):
-                    await self.async_connect(self._spa_identifier, self._spa_address)
+                    if (
+                        self.spa_state == GeckoSpaState.LOCATED_SPAS
+                        and self._spa_identifier is not None
+                        and self._facade is None
+                    ):
+                        await self.async_connect(
+                            self._spa_identifier, self._spa_address
+                        )
+
+                except Exception:  # pylint: disable=broad-except
+                    # A locate or connect that fails (for example because the
+                    # manager was reset underneath it) must not stop the pump
+                    _LOGGER.exception("Sequence pump caught exception, will retry")
 
                 await asyncio.sleep(GeckoConstants.ASYNCIO_SLEEP_TIMEOUT_FOR_YIELD)
 
